@@ -45,7 +45,7 @@ func newWorld(tag string, maxBlocks int) *world {
 		}
 		b, invalid, err := wd.builder.Build(wd.blocks[h-1], rank, 0, txs, fmt.Sprintf("seg%d", h))
 		if err != nil || len(invalid) != 0 {
-			engine.Failf("building block %d of the segment: %v (%d txs discarded)", h, err, len(invalid))
+			engine.Realf("building block %d of the segment: %v (%d txs discarded)", h, err, len(invalid))
 		}
 		wd.blocks = append(wd.blocks, b)
 		wd.miner = append(wd.miner, rank)
@@ -132,7 +132,7 @@ func (wd *world) reference(nb int, confs [][2]int) [2]int {
 	ref := wd.w.NewNode(filepath.Join(wd.dir, fmt.Sprintf("ref%d", wd.seq)))
 	for h := 1; h <= nb; h++ {
 		if _, err := ref.DP.InsertBlock(node.Copy(wd.blocks[h], nil)); err != nil {
-			engine.Failf("reference run: InsertBlock(%d): %v", h, err)
+			engine.Realf("reference run: InsertBlock(%d): %v", h, err)
 		}
 		for _, c := range confs {
 			if c[0] == h {
